@@ -511,6 +511,7 @@ type Clause struct {
 
 type LoopSpec struct {
 	Invariants []Clause
+	Hints      []Clause // proved at every back edge (may use head(e)), then available to the inv-keep goals
 }
 
 type ParamSpec struct {
@@ -527,6 +528,7 @@ type FuncSpec struct {
 	Requires   []Clause
 	Ensures    []Clause
 	Checks     []Clause // checked at every return like ensures, may mention locals, not exported to callers
+	Effects    []Clause // ghost effects ($Name := expr) applied at call sites; Name holds the target
 	Loops      map[int]*LoopSpec
 	NoPanic    bool
 	Overflow   bool
@@ -606,7 +608,7 @@ var clauseKeywords = map[string]bool{
 	"property": true, "requires": true, "ensures": true, "nopanic": true, "overflow": true,
 	"untrusted": true, "loop": true, "modifies": true, "assume": true, "trusted": true,
 	"fresh": true, "params": true, "results": true, "let": true, "assert": true, "var": true,
-	"dropped": true, "param": true, "end": true, "checks": true,
+	"dropped": true, "param": true, "end": true, "checks": true, "effect": true,
 }
 
 // parseContractFile reads a zz_contracts_verif.go file.
@@ -717,6 +719,22 @@ func (c *Contracts) parseContractFile(path, pkgPath string) error {
 					cur.Assumes = append(cur.Assumes, cl)
 				}
 			}
+		case "effect":
+			// effect $Ghost := <expr>   (ghost protocol: applied at call sites after the postconditions)
+			k := strings.Index(rest, ":=")
+			if k < 0 || cur == nil {
+				return fail(l.n, "bad effect clause")
+			}
+			name := strings.TrimSpace(rest[:k])
+			if !strings.HasPrefix(name, "$") {
+				return fail(l.n, "effect target must be a ghost variable ($Name)")
+			}
+			cl, err := parseClause(l.n, rest[k+2:])
+			if err != nil {
+				return err
+			}
+			cl.Name = name
+			cur.Effects = append(cur.Effects, cl)
 		case "nopanic":
 			cur.NoPanic = true
 		case "overflow":
@@ -773,10 +791,12 @@ func (c *Contracts) parseContractFile(path, pkgPath string) error {
 				return fail(l.n, "bad loop ordinal")
 			}
 			body := strings.TrimSpace(rest[k+1:])
-			if !strings.HasPrefix(body, "invariant ") {
-				return fail(l.n, "expected invariant")
+			isHint := strings.HasPrefix(body, "hint ")
+			if !strings.HasPrefix(body, "invariant ") && !isHint {
+				return fail(l.n, "expected invariant or hint")
 			}
-			cl, err := parseClause(l.n, body[len("invariant "):])
+			text := strings.TrimPrefix(strings.TrimPrefix(body, "invariant "), "hint ")
+			cl, err := parseClause(l.n, text)
 			if err != nil {
 				return err
 			}
@@ -785,7 +805,11 @@ func (c *Contracts) parseContractFile(path, pkgPath string) error {
 				ls = &LoopSpec{}
 				cur.Loops[n] = ls
 			}
-			ls.Invariants = append(ls.Invariants, cl)
+			if isHint {
+				ls.Hints = append(ls.Hints, cl)
+			} else {
+				ls.Invariants = append(ls.Invariants, cl)
+			}
 		case "pure":
 			if rest == "" {
 				if cur == nil {
